@@ -100,14 +100,30 @@ def is_channel(mm):
         region = mm.config["setup"]["chip region"]
         if region == "channel":
             # measured in the channel
-            return True
+            return get_emodulus_config_id(mm)
         else:
             # measured in the reservoir
             return False
     else:
         # This might be a testing dictionary or someone who is
         # playing around with data. Avoid disappointments here.
-        return True
+        return get_emodulus_config_id(mm)
+
+
+def get_emodulus_config_id(mm):
+    """Return the values of the optional emodulus configuration keys
+
+    The three recipes (cases A, B, C) only require a subset of these
+    keys, but all of them have an influence on how (or whether) the
+    Young's modulus is computed in :func:`compute_emodulus`. Returning
+    them here (non-empty list, i.e. `True`) makes them part of the hash
+    of the ancillary feature.
+    """
+    calccfg = mm.config["calculation"] if "calculation" in mm.config else {}
+    return ["channel"] + ["{}={}".format(key, calccfg.get(key, None))
+                          for key in ["emodulus medium",
+                                      "emodulus temperature",
+                                      "emodulus viscosity"]]
 
 
 def register():
